@@ -9,7 +9,7 @@ PROPS["C01"] = {
     "level_text": "Exhaustive within stated bounds: in the 8-bit-digit build of the same sources every integer |a| < 2^16 (131 071 states) is driven through every unary, "
                   "single-digit and shift operation, every signed pair below 2^11 (quick) / 2^13 (thorough) and the products with structured digit-vector alphabets through every "
                   "binary operation, algorithm variant and alias pattern; the shipped 64-bit build runs the full product of a boundary-digit alphabet. Every transition is compared with GMP and "
-                  "checked for normal form and unchanged inputs. This is the right level because carry/borrow/estimate corner cases are 2^-64 events for the random tests but occur millions of times at 8-bit digits.",
+                  "checked for normal form and unchanged inputs. This is the right level because carry/borrow/estimate corner cases are 2^-64 events for the random tests but occur millions of times at 8-bit digits. Karatsuba builds (BN_KARAT = 1, 2) in the thorough tier.",
     "level_note": "Trusted: GMP, the harness glue (raw dp/used/sign access). Not reached: a defect needing one specific full-width 64-bit digit value outside the alphabet with no 8-bit analogue. "
                   "Results that need the whole RLC_BN_SIZE capacity may either succeed or raise the precision error.",
     "rule": "cases are (operation, operands, alias pattern) enumerated by odometers over duplicate-free domains: in the 8-bit-digit world "
@@ -32,7 +32,7 @@ PROPS["C02"] = {
     "technique": "explicit-state enumeration of complete 16-bit prime fields in the 8-bit-digit build (every residue, every pair for small primes, every 2-digit prime in the thorough tier) plus alphabet products on every prime selectable at the shipped sizes, against GMP modular arithmetic",
     "level_text": "Complete state spaces: for ten structurally different 16-bit primes (quick) and every prime in [257, 65536) (thorough) every residue is driven through every unary operation and algorithm variant "
                   "(7 inverters, 5 symbol algorithms, square/cube roots, conversions), every ordered pair of residues for p <= 1009 through every add/sub/mul variant and alias pattern, every exponent in [-2p, 2p], every double-width value below p*R through the reductions; "
-                  "at 256/255/381 bits the full product of a boundary alphabet (0, 1, p-1, (p+-1)/2, 2^k, values whose Montgomery form has zero/all-ones digits, small values and their inverses). Results must equal GMP and be canonical (< p in the raw representation).",
+                  "at 256/255/381 bits the full product of a boundary alphabet (0, 1, p-1, (p+-1)/2, 2^k, values whose Montgomery form has zero/all-ones digits, small values and their inverses). Results must equal GMP and be canonical (< p in the raw representation). fp_inv_sim for every batch length with a separate output and in place; conversion back into a destination that held a negative number; Karatsuba builds in the thorough tier.",
     "level_note": "Trusted: GMP; elements are injected/read through the raw Montgomery representation computed by GMP, so relic's own conversions are not in the oracle path. Not reached: a defect needing a specific 256-bit value outside the alphabet with no 16-bit analogue.",
     "rule": "cases are (operation group, prime, operands); W8: every residue of each listed prime (complete), every pair for p <= 1009; W64: alphabet product per selectable prime. "
             "Non-trivial: operand not in {0,1} (unary), both operands non-zero (binary), |exponent| > 1; distinct by 64-bit hash of (group, prime, operands). transitions counts individual operation applications compared with GMP.",
@@ -52,7 +52,7 @@ PROPS["C09"] = {
     "technique": "explicit-state enumeration of complete small operand spaces (every signed pair in a square, every n < 2^16 / 2^17 for primality, every scalar < 2^16 x every window width for recodings) of the real bn_* number-theoretic code in the 8-bit-digit and shipped builds, against GMP",
     "level_text": "Every signed pair in [-G, G]^2 through gcd (Euclid, Lehmer, binary), extended gcd with the Bezout identity, lcm, inverse, Jacobi/Legendre and reduction (all algorithms incl. Montgomery conversion and pseudo-Mersenne); "
                   "every (a, e, m) with a, m < 40/64 and |e| < 128 through every exponentiation algorithm; every n below 2^16 (8-bit digits) / 2^17-2^20 (64-bit) plus every base-2 Fermat pseudoprime below 2^22-2^26, prime squares, close-prime products and Chernick numbers through every primality test; "
-                  "every k < 2^16 x every width 2..8 through every recoding with digit-set, sparsity, length and guard-byte checks (tau-NAF evaluated in Z[tau] and checked modulo (tau^m-1)/(tau-1)). 8-bit digits make Lehmer fallbacks and carry paths frequent.",
+                  "every k < 2^16 x every width 2..8 through every recoding with digit-set, sparsity, length and guard-byte checks (tau-NAF evaluated in Z[tau] and checked modulo (tau^m-1)/(tau-1)). 8-bit digits make Lehmer fallbacks and carry paths frequent. bn_rec_glv is driven directly with the lattices of the three shipped endomorphism curves on scalars constructed to carry out of the lowest digit(s) of the rounded quotients; bn_evl also with coefficients above the modulus and below zero.",
     "level_note": "Trusted: GMP (gcdext, powm, jacobi, sqrt, probab_prime_p with 40 rounds as the primality reference). bn_rec_rtnaf, bn_rec_glv, bn_rec_frb/sac are decided through the scalar multiplications that use them (C16, C03, C11) because their contracts are relative to curve data. bn_gcd_ext_mid and bn_mxp_crt are covered only through their callers.",
     "rule": "cases are (function group, operands) from odometers over duplicate-free ranges/alphabets; every case is non-trivial except none (all counted); distinct by 64-bit hash; transitions = individual function results compared with GMP.",
     "assumptions": ["GMP is the reference", "the deterministic RNG seed makes probabilistic primality tests a function of the input"],
@@ -67,7 +67,7 @@ PROPS["C03"] = {
     "technique": "explicit-state enumeration of complete tiny elliptic-curve groups (full Cayley tables, every scalar in [-2n-3, 2n+3] for every routine) built with the real ep_* code at 8-bit digits, plus point/scalar alphabet products on every shipped curve, against an affine chord-and-tangent reference on GMP",
     "level_text": "Complete groups: tiny curves found by reference point counting are installed through the public ep_curve_set_plain/endom API; on ~1000-point curves (prime order, cofactor 2/4 with order-two points, a = -3/0/1/2, GLV) the complete Cayley table is run through every addition/doubling formula (affine, projective, Jacobian) in every operand representation and alias pattern; "
                   "on 16-bit prime-order curves (plain, GLV, generic a) every scalar in [-2n-3, 2n+3] through every variable-base, fixed-base (basic, single/double comb, w-NAF tables), generator, digit and simultaneous routine, every scalar pair in [-n-2, n+2]^2 for the simultaneous forms, many-point forms with n in {0..4, 9..12, 33}. "
-                  "The six 256-bit curves run a scalar alphabet (0, +-1, n-1, n, n+1, 2n, multiples, 2^k boundaries, longer than n up to 2^1000-1, GLV boundary neighbourhood) against the same reference.",
+                  "The six 256-bit curves run a scalar alphabet (0, +-1, n-1, n, n+1, 2n, multiples, 2^k boundaries, longer than n up to 2^1000-1, GLV boundary neighbourhood) against the same reference. Every simultaneous case runs a second time with the result aliased to a point and / or un-normalised operands.",
     "level_note": "Trusted: GMP-based affine reference (ref_ec.h), harness glue reading points by coordinate flag. Fixed-base tables are only built on tiny curves whose order has the bit length of the field (tiny_exclusion otherwise). W8 RNG never yields a zero blinding factor. Not reached: defects needing a specific 256-bit scalar outside the alphabet with no tiny analogue. The thorough tier also runs the 446-bit builds (BN_P446; B12_P446 where its twist is defined, i.e. under FP_QNRES). The thorough tier also runs the 64-bit battery in builds of 160, 192, 224, 384 and 521 bits (SECG_P160/K160, NIST_P192/SECG_K192, NIST_P224/SECG_K224, NIST_P384, NIST_P521).",
     "rule": "cases are (curve, operation group, points, scalars); tiny worlds: complete point lists / scalar ranges by odometer; W64: alphabet products; all cases count as non-trivial (each involves at least one group operation); distinct by 64-bit hash; transitions = individual routine results compared with the reference.",
     "assumptions": ["reference group law in ref_ec.h", "calls inside RLC_TRY", "DRBG/RNG re-seeded identically before every randomised routine"],
@@ -91,7 +91,7 @@ PROPS["C11"] = {
     "level": "model_checking",
     "technique": "explicit-state enumeration of complete tiny elliptic-curve groups over F_p^2 (full Cayley tables per coefficient class, every scalar in [-2r-3, 2r+3] for every routine) built with the real ep2_* code at 8-bit digits, plus point/scalar alphabet products on the BN_P256 / SM9_P256 twists including twist points outside G2, against an affine chord-and-tangent reference over F_p[u]/(u^2 - beta) on GMP",
     "level_text": "Complete groups: curves over F_p^2 (p = 23, 29, 251) found by reference point counting are installed through the public ep2_curve_set API; on ~530-point curves (a = -3, 0, 1, 2, one-digit, general; an even-order curve with order-two points; p = 1 mod 4) the complete Cayley table is run through every addition/doubling formula (affine, projective, Jacobian) in every operand representation and alias pattern; on 16-bit prime-order curves every scalar in [-2r-3, 2r+3] through every variable-base, fixed-base, generator, digit and simultaneous routine. "
-                  "On the 256-bit twists: G2 members and twist points outside G2 (x = i + j u lifted by reference square root), scalar alphabet incl. GLS boundary values, the Frobenius endomorphism (eigenvalue p on G2, additivity, characteristic equation psi^2 - [t]psi + [p] = 0 on every enumerated twist point, powers 1..4) and cofactor clearing ([r]R' = identity, R' = identity only if [h]R is).",
+                  "On the 256-bit twists: G2 members and twist points outside G2 (x = i + j u lifted by reference square root), scalar alphabet incl. GLS boundary values, the Frobenius endomorphism (eigenvalue p on G2, additivity, characteristic equation psi^2 - [t]psi + [p] = 0 on every enumerated twist point, powers 1..4) and cofactor clearing ([r]R' = identity, R' = identity only if [h]R is). The many-point form is also called with the result aliased to one of its points, the Frobenius on un-normalised operands.",
     "level_note": "Trusted: ref_ec2.h (F_p^2 by definition with beta = u^2 learned from the library and validated as a non-residue), harness glue. Tiny curves have no twist structure, so Frobenius-based routines (ep2_frb, GLS recodings, fast cofactor clearing) are judged at 256 bits only. Recoding-based multiplications (lwnaf, lwreg, fixed-base) are judged on points of the order-r subgroup (they reduce the scalar modulo r). Curves over cubic/quartic/octic extensions (ep3/ep4/ep8) have no curve-arithmetic reference; they are judged through the pairing oracle of the family jobs (subgroup points only; points outside the subgroup only via validity / cofactor clearing). The thorough tier also runs the 446-bit builds (BN_P446; B12_P446 where its twist is defined, i.e. under FP_QNRES).",
     "rule": "cases are (curve, operation group, points, scalars); tiny worlds: complete point lists / scalar ranges by odometer; W64: alphabet products; all cases non-trivial; distinct by 64-bit hash; transitions = individual routine results compared with the reference.",
     "assumptions": ["reference group law in ref_ec2.h", "calls inside RLC_TRY", "DRBG/RNG re-seeded identically before every randomised routine"],
@@ -129,7 +129,7 @@ PROPS["C11"] = {
 PROPS["C12"] = {
     "level": "model_checking",
     "technique": "bounded exhaustive enumeration of constructed candidate sets (members, identity, off-curve, curve/twist points outside the order-r subgroup, cofactor parts, small-order points, member + non-member; target-field elements outside the cyclotomic subgroup, cyclotomic elements of order not dividing r) through the real membership predicates, and of scalar alphabets through every g1_/g2_/gt_ multiplication form, against the definition evaluated by reference group laws and a reference quotient-ring tower on GMP",
-    "level_text": "Per parameter set (BN_P256 with D-type twist, SM9_P256 with M-type twist; B12_P381 in the 381-bit build, where G1 has a cofactor): the expected verdict of g1_is_valid / g2_is_valid / gt_is_valid is the definition itself -- on the curve, not the identity, annihilated by r -- computed by plain reference multiplication / exponentiation (no endomorphism shortcut). Candidates are built by the reference: multiples of the generators, off-curve neighbours, points lifted from small x (outside the subgroup when a cofactor exists), their [r]- and [h]-multiples, sums member + cofactor part, points of every prime order < 2^20 dividing the cofactor, points of another twist; GT: powers of the generator, 0, 1, -1, -g, sparse and dense field elements, their images under the easy part of the final exponentiation (cyclotomic, order not dividing r), those times a member, and their images under the hard part (members unrelated to the generator). Exponentiation: g1/g2 mul, mul_sec, mul_any, mul_dig, mul_gen, mul_fix, mul_sim, mul_sim_lot, mul_sim_gen and gt_exp, gt_exp_sec, gt_exp_dig, gt_exp_gen, gt_exp_sim for scalars 0, +-1, r-1, r, r+1, 2r, 2^k boundaries, longer than r, negative, curve-parameter multiples. Other families (thorough, C04_fam.c, bounds c11-): on the curves over F_p^3, F_p^4, F_p^8 of the KSS18, KSS16/B24, B48 builds the pairing with a fixed G1 generator is an exact oracle (G2 cyclic of prime order, pairing non-degenerate: X = [k]G2 iff e(G1, X) = E0^k in the reference tower): EVERY multiplication routine (26 forms incl. regular, ladder, every table method, simultaneous forms) x 18 scalars; the group law in every coordinate system and operand representation over all 12 x 12 index pairs (equal, opposite, identity operands); twist points found by solving the curve equation: rejected by g2_is_valid, mapped into the order-r subgroup by cofactor clearing; the Frobenius endomorphism for every power 0..k+1 on affine and projective operands (e(G1, frb^i([j]G2)) = E0^(j p^i)). The B24 build (315 bits) also runs in the quick tier; the thorough tier adds one build per remaining pairing field size (158 .. 768 bits). Other families (thorough, C04_fam.c, bounds c12-): validity predicates on members, identities and non-members, every G1 multiplication form and every GT exponentiation form (gt_exp, _sec, _dig, _gen, _sim, inverse, square/multiply, Frobenius) against the reference tower of degree 16, 18, 24, 48.",
+    "level_text": "Per parameter set (BN_P256 with D-type twist, SM9_P256 with M-type twist; B12_P381 in the 381-bit build, where G1 has a cofactor): the expected verdict of g1_is_valid / g2_is_valid / gt_is_valid is the definition itself -- on the curve, not the identity, annihilated by r -- computed by plain reference multiplication / exponentiation (no endomorphism shortcut). Candidates are built by the reference: multiples of the generators, off-curve neighbours, points lifted from small x (outside the subgroup when a cofactor exists), their [r]- and [h]-multiples, sums member + cofactor part, points of every prime order < 2^20 dividing the cofactor, points of another twist; GT: powers of the generator, 0, 1, -1, -g, sparse and dense field elements, their images under the easy part of the final exponentiation (cyclotomic, order not dividing r), those times a member, and their images under the hard part (members unrelated to the generator). Exponentiation: g1/g2 mul, mul_sec, mul_any, mul_dig, mul_gen, mul_fix, mul_sim, mul_sim_lot, mul_sim_gen and gt_exp, gt_exp_sec, gt_exp_dig, gt_exp_gen, gt_exp_sim for scalars 0, +-1, r-1, r, r+1, 2r, 2^k boundaries, longer than r, negative, curve-parameter multiples. Other families (thorough, C04_fam.c, bounds c11-): on the curves over F_p^3, F_p^4, F_p^8 of the KSS18, KSS16/B24, B48 builds the pairing with a fixed G1 generator is an exact oracle (G2 cyclic of prime order, pairing non-degenerate: X = [k]G2 iff e(G1, X) = E0^k in the reference tower): EVERY multiplication routine (26 forms incl. regular, ladder, every table method, simultaneous forms) x 18 scalars; the group law in every coordinate system and operand representation over all 12 x 12 index pairs (equal, opposite, identity operands); twist points found by solving the curve equation: rejected by g2_is_valid, mapped into the order-r subgroup by cofactor clearing; the Frobenius endomorphism for every power 0..k+1 on affine and projective operands (e(G1, frb^i([j]G2)) = E0^(j p^i)). The B24 build (315 bits) also runs in the quick tier; the thorough tier adds one build per remaining pairing field size (158 .. 768 bits). Other families (thorough, C04_fam.c, bounds c12-): validity predicates on members, identities and non-members, every G1 multiplication form and every GT exponentiation form (gt_exp, _sec, _dig, _gen, _sim, inverse, square/multiply, Frobenius) against the reference tower of degree 16, 18, 24, 48. In-place gt_exp / gt_exp_sec / gt_exp_dig and the identity as the variable base of g1/g2_mul_sim_gen are part of every case.",
     "level_note": "Trusted: ref_ec.h / ref_ec2.h group laws, ref_ext.h tower with each level's constant read from the library and validated irreducible, twist type derived from the coefficients (b' = b/xi or b*xi). The k = 8, 16, 18, 24, 48 families are judged by the family jobs (pairing as oracle, reference tower of degree k) in one build per field size. The thorough tier also runs the 446-bit builds (BN_P446; B12_P446 where its twist is defined, i.e. under FP_QNRES).",
     "rule": "cases are (parameter set, predicate or routine, candidate / base, scalar(s)); all counted non-trivial; distinct by 64-bit hash; transitions = individual verdicts / results compared with the reference.",
     "assumptions": ["reference group laws and tower", "calls inside RLC_TRY", "DRBG re-seeded identically before every randomised routine"],
@@ -164,7 +164,7 @@ PROPS["C12"] = {
 PROPS["C04"] = {
     "level": "model_checking",
     "technique": "bounded exhaustive enumeration of (map, base points, scalar pair, operand representation) products and of multi-pairing lists with identities at every subset of positions through the real pairing code; oracle = the algebraic property itself with both sides computed independently: multiples [a]P, [b]Q by reference group laws, the power e(P,Q)^(ab) by a reference quotient-ring tower on GMP",
-    "level_text": "Per parameter set (BN_P256/D-type, SM9_P256/M-type; B12_P381 in the 381-bit build) and per map (pc_map, optimal ate, Tate, Weil): E0 = e(P0, Q0) for three base pairs must not be 0 or 1 and must satisfy E0^r = 1 (reference power); e([a]P0, [b]Q0) must equal E0^(ab mod r) for every (a, b) in {0, 1, 2, -1, r-1, r, r+1, 2^64, a 200-bit value}^2 (thorough: 13 scalars), with operands in affine and projective form (four combinations) -- identity operands arise as a or b in {0, r}; multi-pairings pc_map_sim / pp_map_sim_* over m in 0..4 (thorough 0..6) pairs with an identity in the G1 slot, the G2 slot or both at EVERY subset of positions for m <= 3 and at each single position above must equal E0^(sum a_i b_i). gt_get_gen must equal pc_map of the generators. Other families (thorough, C04_fam.c): in the builds of the shipped presets for B24 (315 bits), KSS16 (330), KSS18 (638) and B48 (575, FP_QNRES) the set chosen by pc_param_set_any is driven through the pairing-group layer: E0 = e(G1, G2) is read once, checked non-trivial and of order r in a reference tower of degree k = 24, 16, 18, 48 (constants read from the library and validated irreducible), and e([a]G1, [b]G2) = E0^(ab) is compared coefficient by coefficient over the 18 x 18 scalar alphabet (normalised and un-normalised points), multi-pairings over every identity pattern of up to three pairs.",
+    "level_text": "Per parameter set (BN_P256/D-type, SM9_P256/M-type; B12_P381 in the 381-bit build) and per map (pc_map, optimal ate, Tate, Weil): E0 = e(P0, Q0) for three base pairs must not be 0 or 1 and must satisfy E0^r = 1 (reference power); e([a]P0, [b]Q0) must equal E0^(ab mod r) for every (a, b) in {0, 1, 2, -1, r-1, r, r+1, 2^64, a 200-bit value}^2 (thorough: 13 scalars), with operands in affine and projective form (four combinations) -- identity operands arise as a or b in {0, r}; multi-pairings pc_map_sim / pp_map_sim_* over m in 0..4 (thorough 0..6) pairs with an identity in the G1 slot, the G2 slot or both at EVERY subset of positions for m <= 3 and at each single position above must equal E0^(sum a_i b_i). gt_get_gen must equal pc_map of the generators. Other families (thorough, C04_fam.c): in the builds of the shipped presets for B24 (315 bits), KSS16 (330), KSS18 (638) and B48 (575, FP_QNRES) the set chosen by pc_param_set_any is driven through the pairing-group layer: E0 = e(G1, G2) is read once, checked non-trivial and of order r in a reference tower of degree k = 24, 16, 18, 48 (constants read from the library and validated irreducible), and e([a]G1, [b]G2) = E0^(ab) is compared coefficient by coefficient over the 18 x 18 scalar alphabet (normalised and un-normalised points), multi-pairings over every identity pattern of up to three pairs. Also (family harness): the Tate and Weil pairings at k = 12, 16, 18 (bilinearity over the scalar alphabet squared, multi-pairings over identity masks with un-normalised points, each judged in the reference tower against the map's own generator value) and the final exponentiation pp_exp_k12 as a homomorphism onto the order-r subgroup (separate result and in place).",
     "level_note": "No reference pairing: the value E0 itself is not compared with an external implementation, only its algebraic properties (which characterise a non-degenerate bilinear map up to a fixed power). Trusted: reference group laws and tower as in C12. A toy pairing world is not used: tiny BN/BLS parameters make Miller-loop exceptional cases frequent that cannot occur for 256-bit r. The k = 8, 16, 18, 24, 48 families are judged by the family jobs in one build per field size; k = 54 is not (the pairing-group layer does not serve it). The thorough tier also runs the 446-bit builds (BN_P446; B12_P446 where its twist is defined, i.e. under FP_QNRES).",
     "rule": "cases are (set, map, base, a, b, repP, repQ) and (set, map, m, identity pattern, scalar pattern); all non-trivial; distinct by 64-bit hash; transitions = pairing values compared.",
     "assumptions": ["reference group laws and tower", "calls inside RLC_TRY"],
@@ -201,7 +201,7 @@ PROPS["C04"] = {
 PROPS["C18"] = {
     "level": "model_checking",
     "technique": "exhaustive enumeration of the configuration space: every identifier value 0..255 is offered to fp_param_set, ep_param_set and eb_param_set in each verified build; every accepted parameter set is put through every consistency obligation, decided with GMP primality tests, reference group laws (prime, F_p^2, binary) and a reference quotient-ring tower, never with the library's own arithmetic",
-    "level_text": "Per selectable set: p prime and of the configured size, Montgomery constants, non-residues, 2-adicity, sparse forms; curve non-singular, generator on the curve, r prime, [r]G = O, Hasse bound for r h, [r h]T = O for 8 independent curve points (with Hasse and r prime this pins the order), ep_mul_cof maps them into the subgroup and kills exactly what [h] kills, advertised level vs bits(r), coefficient-class flags; endomorphism curves: beta primitive cube root of unity, (beta x, y) = [lambda]G for a root of l^2 + l + 1 mod r, ep_psi agrees, GLV decomposition through the stored lattice satisfies k0 + k1 lambda = k mod r with half-length parts on 12 scalars; pairing sets: p and r equal the family polynomials at the stored parameter and its sparse form, r | Phi_12(p), r divides no p^j - 1 (j | 12, j < 12), twist type derived from b' (b/xi or b xi), G2 on the twist and of order r, Hasse over F_p^2, [r h2]T = O for 4 twist points, ep2_mul_cof lands in G2, psi(G2) = [p]G2, e(G1, G2) non-degenerate, of order r and equal to gt_get_gen; binary sets: f(z) irreducible by Rabin's test, curve non-singular, generator on the curve, r prime, [r]G = O, Hasse, [r h]T = O for 8 points built by half-trace, Koblitz flag, level.",
+    "level_text": "Per selectable set: p prime and of the configured size, Montgomery constants, non-residues, 2-adicity, sparse forms; curve non-singular, generator on the curve, r prime, [r]G = O, Hasse bound for r h, [r h]T = O for 8 independent curve points (with Hasse and r prime this pins the order), ep_mul_cof maps them into the subgroup and kills exactly what [h] kills, advertised level vs bits(r), coefficient-class flags; endomorphism curves: beta primitive cube root of unity, (beta x, y) = [lambda]G for a root of l^2 + l + 1 mod r, ep_psi agrees, GLV decomposition through the stored lattice satisfies k0 + k1 lambda = k mod r with half-length parts on 12 scalars; pairing sets: p and r equal the family polynomials at the stored parameter and its sparse form, r | Phi_12(p), r divides no p^j - 1 (j | 12, j < 12), twist type derived from b' (b/xi or b xi), G2 on the twist and of order r, Hasse over F_p^2, [r h2]T = O for 4 twist points, ep2_mul_cof lands in G2, psi(G2) = [p]G2, e(G1, G2) non-degenerate, of order r and equal to gt_get_gen; binary sets: f(z) irreducible by Rabin's test, curve non-singular, generator on the curve, r prime, [r]G = O, Hasse, [r h]T = O for 8 points built by half-trace, Koblitz flag, level. Every curve set is examined twice: on a fresh context, and after a pairing-friendly, an endomorphism and a plain set were selected first.",
     "level_note": "Worlds: the shipped 256/283-bit build, the 381-bit build (B12_P381) and the 255-bit build. Edwards parameter sets are decided in C17's harness (same obligations on the Edwards reference). The builds of the other pairing field sizes are visited in the thorough tier (315, 330, 446, 575, 638 bits); sizes without a build here (e.g. 569 for k = 54, 1536 and above) are not reached. Hash-to-curve constants are decided where they are used (C13). The thorough tier also runs the 446-bit builds (BN_P446; B12_P446 where its twist is defined, i.e. under FP_QNRES). In the builds of the other families (315, 330, 575, 638 bits; thorough) every selectable set gets the field, curve, order, cofactor, level and embedding-degree obligations (the multiplicative order of p modulo r must be the advertised k, for any family); twist / tower / pairing-value obligations of the k != 12 families are judged by the family job of C04.",
     "rule": "cases are (selection function, identifier) for all 3 x 256 identifier values: non-trivial when the identifier is accepted; states = selectable parameter sets; transitions = obligations evaluated.",
     "assumptions": ["GMP primality (64 Miller-Rabin rounds)", "reference group laws and tower"],
@@ -302,7 +302,7 @@ PROPS["C06"] = {
 PROPS["C07"] = {
     "level": "model_checking",
     "technique": "exhaustive enumeration of complete byte-string spaces given to the real decoders in the tiny build (every string of length 0..2/3 for integers, every 2-byte string per prime, every 1- and 3-byte string and structured 5-byte strings per tiny curve, every short text x every radix), tag x length x coordinate alphabets at shipped sizes, against a reference validity predicate and canonical encoder written from the format definition",
-    "level_text": "Complete input spaces: the decoder under test sees every byte string of the relevant lengths on tiny instances (2^24 compressed-point strings per curve, 65 536 field strings per prime, every integer string up to 2-3 bytes, every text of length <= 2-3 over a 67-symbol alphabet in every radix 2..64) and must accept exactly the strings the reference predicate calls valid, produce the reference object, and re-encode to the same bytes; every value |a| < 2^12/2^16 in every radix for the text form; encoders are checked for advertised size, guard bytes, short buffers. At 256 bits: every tag byte x 14 lengths x coordinate alphabets (0, 1, p-1, p, p+1, 2^256-1, generator coordinates, wrong roots) on the six curves.",
+    "level_text": "Complete input spaces: the decoder under test sees every byte string of the relevant lengths on tiny instances (2^24 compressed-point strings per curve, 65 536 field strings per prime, every integer string up to 2-3 bytes, every text of length <= 2-3 over a 67-symbol alphabet in every radix 2..64) and must accept exactly the strings the reference predicate calls valid, produce the reference object, and re-encode to the same bytes; every value |a| < 2^12/2^16 in every radix for the text form; encoders are checked for advertised size, guard bytes, short buffers. At 256 bits: every tag byte x 14 lengths x coordinate alphabets (0, 1, p-1, p, p+1, 2^256-1, generator coordinates, wrong roots) on the six curves. Also: binary-curve points (every abscissa of GF(2^17) x every tag, compressed and uncompressed, unused high bits, wrong lengths; the encoding of every point of three tiny curves in affine and projective form), binary-field strings, the byte codec of every extension tower, and the G1/G2 decoders on altered encodings (tags, a coordinate chunk replaced by itself + p, p, all ones, zero, +-1) with three differently prepared destinations whose verdicts must agree.",
     "level_note": "Trusted: the reference predicate (length/tag dispatch, coordinate < p, curve equation, parity convention per observation O1: Montgomery-representation parity for ordinary curves, half-range for pairing-friendly ones). bn_read_str is judged by its documented behaviour of parsing the longest valid prefix. Part 2 (binary fields/curves, extension fields and curves, Edwards, target group) lives in the C16/C10/C11/C17 harnesses where those codecs are exercised on their own structures. Group-element encodings of the pairing groups (C04_fam.c bounds c07-; quick at 256 bits, thorough also at 315, 330, 381, 446, 544, 575, 638 bits): g1 / g2 / gt write-read round trips for 12 elements incl. the identity, compressed and plain, exact sizes (guard bytes), one byte truncated / appended refused, every tag-bit flip never yields an off-curve point (finding L44: the compressed unity of GT).",
     "rule": "cases are (codec, length, bytes) or (codec, value, radix) by odometer over complete byte/character spaces; all counted non-trivial; distinct by 64-bit hash; states = distinct byte strings of the complete spaces; transitions = decoder/encoder calls judged.",
     "assumptions": ["reference validity predicate written from the format", "calls inside RLC_TRY"],
@@ -376,7 +376,7 @@ PROPS["C19"] = {
 PROPS["C16"] = {
     "level": "model_checking",
     "technique": "explicit-state enumeration of the complete field GF(2^17) (every element through every unary operation and algorithm variant) and of tiny Koblitz/random binary curves over it (point-subset group law, every scalar in [-2n-3, 2n+3] through every routine) in the 8-bit-digit build, plus alphabet products for GF(2^283), NIST B-283 and K-283, against a shift-and-xor polynomial reference",
-    "level_text": "Every one of the 131 072 elements of GF(2^17) through 3 squarers, 2 square-rooters, 8 inverters, 2 trace and 2 quadratic-solver routines, iterated squaring for every count 0..m+1, products with a structured alphabet through 3-4 multipliers in every alias pattern, every 3-byte string through the decoder. Four tiny curves over GF(2^17) (both Koblitz curves, two random ones; orders 2r / 4r with r prime by reference counting): all pairs of a 120-400 point list incl. the identity, the point of order two, opposite points and generator + 2-torsion in affine and Lopez-Dahab representations and alias patterns; halving on every listed point of odd order (2 hlv(P) = P, result in the subgroup), Frobenius = (x^2, y^2); every scalar in [-2n-3, 2n+3] through binary, Lopez-Dahab ladder, (tau-)w-NAF, regular (tau-)w-NAF, halving, generator, digit and four fixed-base routines; simultaneous forms over scalar alphabets and related base points. At 283 bits the same oracles run on alphabets for both NIST curves.",
+    "level_text": "Every one of the 131 072 elements of GF(2^17) through 3 squarers, 2 square-rooters, 8 inverters, 2 trace and 2 quadratic-solver routines, iterated squaring for every count 0..m+1, products with a structured alphabet through 3-4 multipliers in every alias pattern, every 3-byte string through the decoder. Four tiny curves over GF(2^17) (both Koblitz curves, two random ones; orders 2r / 4r with r prime by reference counting): all pairs of a 120-400 point list incl. the identity, the point of order two, opposite points and generator + 2-torsion in affine and Lopez-Dahab representations and alias patterns; halving on every listed point of odd order (2 hlv(P) = P, result in the subgroup), Frobenius = (x^2, y^2); every scalar in [-2n-3, 2n+3] through binary, Lopez-Dahab ladder, (tau-)w-NAF, regular (tau-)w-NAF, halving, generator, digit and four fixed-base routines; simultaneous forms over scalar alphabets and related base points. At 283 bits the same oracles run on alphabets for both NIST curves. Also: the quadratic extension GF(2^m)[s]/(s^2+s+1) (every x of GF(2^17) paired with alphabet and derived partners through multiplication, squaring, inversion, multiplication by s and quadratic solving), table-driven iterated squaring for every count, both reductions of double-length polynomials, bit access, strings in every power-of-two radix, the point codec over every abscissa x every tag, a second tiny pentanomial (quick) and further trinomials / pentanomials, Karatsuba builds and the library's second 283-bit polynomial (thorough), and every trinomial / pentanomial of degree 17 offered to the public setters.",
     "level_note": "Trusted: ref_gf2.h (shift-and-xor multiplication, Fermat inversion, affine binary-curve law); the library polynomial is asserted equal to the reference polynomial at start-up. fb2_* (quadratic extension) is not covered yet. Not reached: defects needing a specific 283-bit operand outside the alphabet with no 17-bit analogue. The thorough tier repeats the 64-bit battery in builds with FB_POLYN = 163 and 233 (NIST B-/K-163, B-/K-233); m = 409 and 571 exceed the 5-word reference elements and are not built.",
     "rule": "cases are (operation group, operands/points/scalars) by odometer over the complete field / scalar ranges / point lists; all non-trivial; distinct by 64-bit hash; states = field elements visited in the complete space; transitions = individual routine results compared with the reference.",
     "assumptions": ["reference GF(2^m) and curve arithmetic in ref_gf2.h", "calls inside RLC_TRY"],
@@ -399,7 +399,7 @@ PROPS["C16"] = {
 PROPS["C10"] = {
     "level": "model_checking",
     "technique": "explicit-state enumeration of complete quadratic and cubic extensions of tiny prime fields (every element of F_p^2 for p in {257, 263, 331, 1009}, F_p^3 for p = 331) and alphabet products for every tower up to degree 54 at 16-bit and 256-bit primes, against a generic polynomial-quotient-ring reference whose tower constants are read from the library and validated to define fields",
-    "level_text": "Every element of F_p^2 (p = 257, 263, 331, 1009: up to 10^6 states each) through negation, doubling, every squaring variant, multiplication by the adjoined root, inversion (a * inv(a) = 1 by reference multiplication, zero refused), square root and quadratic-residuosity (Euler criterion in the quotient ring), Frobenius powers 0..N; pairs against structured operands through every add/sub/mul variant and alias pattern; F_p^3 for p = 331 (every 7th element quick, all 3.6*10^7 thorough). Towers of degree 4, 6, 8, 9, 12, 16, 18, 24, 48, 54: per-coefficient alphabet {0, 1, p-1, 2, (p-1)/2, dense} in all positions (all vectors for N <= 4, <= 2 non-default positions over zero and dense defaults above, all-(p-1) for maximal lazy-reduction accumulators) through the same operations, exponentiation incl. 0, negative, p, 300-bit, and the fp12 cyclotomic family (conv_cyc, test_cyc, sqr_cyc, inv_cyc, exp_cyc, compressed squaring + decompression) at both 256-bit pairing primes (BN_256, SM9_256).",
+    "level_text": "Every element of F_p^2 (p = 257, 263, 331, 1009: up to 10^6 states each) through negation, doubling, every squaring variant, multiplication by the adjoined root, inversion (a * inv(a) = 1 by reference multiplication, zero refused), square root and quadratic-residuosity (Euler criterion in the quotient ring), Frobenius powers 0..N; pairs against structured operands through every add/sub/mul variant and alias pattern; F_p^3 for p = 331 (every 7th element quick, all 3.6*10^7 thorough). Towers of degree 4, 6, 8, 9, 12, 16, 18, 24, 48, 54: per-coefficient alphabet {0, 1, p-1, 2, (p-1)/2, dense} in all positions (all vectors for N <= 4, <= 2 non-default positions over zero and dense defaults above, all-(p-1) for maximal lazy-reduction accumulators) through the same operations, exponentiation incl. 0, negative, p, 300-bit, and the fp12 cyclotomic family (conv_cyc, test_cyc, sqr_cyc, inv_cyc, exp_cyc, compressed squaring + decompression) at both 256-bit pairing primes (BN_256, SM9_256). Also: simultaneous inversion of every tower that offers it (batch lengths 1..4, separate and in-place output), the cyclotomic subgroup of the towers 8, 12, 16, 18, 24, 48, 54 (conversion against a^((p^k-1)/Phi_k(p)), membership, cyclotomic and compressed squarings with single and simultaneous decompression, inversion, exponentiation incl. the sparse form), the sparse multiplications of the k = 12 Miller loop for both twist types, and the byte codec of every tower.",
     "level_note": "Trusted: ref_ext.h; the gamma of each level is the library's own X^d and is validated by the reference (X^d - gamma irreducible), towers failing the validation for a prime are reported as not-a-field and skipped. Not yet covered: mul_dxs sparse forms, unreduced mul_unr outputs, exp_cyc_sps/gls/sim, fp18+ cyclotomic families, pck/upk (those are exercised indirectly through the pairing checks C04/C12).",
     "rule": "cases are (prime, tower, operation group, elements); tiny worlds: complete element spaces by odometer, alphabets above; all non-trivial; distinct by 64-bit hash; states = elements of the complete spaces; transitions = individual results compared.",
     "assumptions": ["reference quotient-ring arithmetic in ref_ext.h", "calls inside RLC_TRY"],
